@@ -372,11 +372,15 @@ def _is_consensus_relay(obj):
 
 
 def _lookup(state, key):
-    """-> ("ok", obj) | ("keyerror", None)"""
+    """-> ("ok", obj) | ("keyerror", None) | ("raised <Type>", None)
+    The statement says when a lookup *works*; how a lookup that must not work fails (KeyError, None, any other
+    exception) is left open, so every exception counts as "did not work"."""
     try:
         return "ok", state.router_from_id(key)
     except KeyError:
         return "keyerror", None
+    except Exception as e:
+        return "raised " + type(e).__name__, None
 
 
 def compare_view(res, state, want, n, prev_objs, earlier):
